@@ -395,7 +395,9 @@ func (l *Local) Allocate(ctx context.Context, cni *daemon.CNI, request ResourceR
 		return nil, []Trace{{Condition: ResourceTypeMismatch}}
 	}
 
-	if localIPRequest.NetworkInterfaceID != "" && l.eni != nil && l.eni.ID != localIPRequest.NetworkInterfaceID {
+	// a request pinned to an interface (repeated ADD of a pod which holds an address) must not be served by another
+	// one, an empty slot included: it would create a new interface and leave the first address owned by the pod
+	if localIPRequest.NetworkInterfaceID != "" && (l.eni == nil || l.eni.ID != localIPRequest.NetworkInterfaceID) {
 		return nil, []Trace{{Condition: NetworkInterfaceMismatch}}
 	}
 
